@@ -11,6 +11,7 @@ import (
 	"net"
 	"net/http"
 	"net/http/httptest"
+	"sort"
 	"strings"
 	"time"
 
@@ -29,10 +30,97 @@ type ent19 struct {
 	stored, mexp, cexp time.Time
 }
 
-func (r *Run) entry19(i int, now time.Time, big bool) ent19 {
-	m := new(dns.Msg)
+// question19 is what a client may ask: mostly ordinary questions, next to
+// them the unusual but legal ones - meta / high-numbered / 16-bit types,
+// classes other than IN, names of 128..253 octets, AD / CD / DO set. The cache
+// key of a question is binary (flags, qtype, qclass, length octet, name:
+// getMsgKey), so the unusual ones have keys with octets >= 0x80.
+func (r *Run) question19(i int) *dns.Msg {
 	name := fmt.Sprintf("n%d-%d.example.", i, r.Rng.Intn(1000))
-	m.SetQuestion(name, dns.TypeA)
+	if r.Rng.Intn(5) == 0 {
+		target := 128 + r.Rng.Intn(120)
+		for len(name) < target {
+			l := target - len(name) - 1
+			if l > 63 {
+				l = 1 + r.Rng.Intn(63)
+			}
+			if l < 1 {
+				l = 1
+			}
+			name = strings.Repeat(string(rune('a'+r.Rng.Intn(26))), l) + "." + name
+		}
+	}
+	qtype := []uint16{dns.TypeA, dns.TypeA, dns.TypeAAAA, dns.TypeHTTPS, dns.TypeMX, dns.TypeTXT, dns.TypePTR}[r.Rng.Intn(7)]
+	if r.Rng.Intn(4) == 0 {
+		switch r.Rng.Intn(4) {
+		case 0:
+			qtype = []uint16{dns.TypeANY, dns.TypeAXFR, dns.TypeIXFR, dns.TypeMAILA, dns.TypeMAILB, dns.TypeTSIG, dns.TypeTKEY, dns.TypeTA, dns.TypeDLV, dns.TypeURI, dns.TypeCAA}[r.Rng.Intn(11)]
+		case 1:
+			qtype = uint16(128 + r.Rng.Intn(128))
+		case 2:
+			qtype = uint16(1 + r.Rng.Intn(65535))
+		default:
+			qtype = dns.TypeANY
+		}
+	}
+	qclass := uint16(dns.ClassINET)
+	if r.Rng.Intn(8) == 0 {
+		qclass = []uint16{dns.ClassCHAOS, dns.ClassHESIOD, dns.ClassNONE, dns.ClassANY}[r.Rng.Intn(4)]
+	}
+	q := new(dns.Msg)
+	q.SetQuestion(name, qtype)
+	q.Question[0].Qclass = qclass
+	q.AuthenticatedData = r.Rng.Intn(6) == 0
+	q.CheckingDisabled = r.Rng.Intn(6) == 0
+	if r.Rng.Intn(4) == 0 {
+		q.SetEdns0(1232, r.Rng.Intn(2) == 0)
+	}
+	return q
+}
+
+// unusual19: the key is not plain ASCII (some octet >= 0x80).
+func unusual19(k string) bool {
+	for i := 0; i < len(k); i++ {
+		if k[i] >= 0x80 {
+			return true
+		}
+	}
+	return false
+}
+
+// kd19 renders a cache key (binary) for a report.
+func kd19(k string) string {
+	if len(k) < 6 {
+		return fmt.Sprintf("key %x", k)
+	}
+	hexk := fmt.Sprintf("%x", k)
+	if len(hexk) > 80 {
+		hexk = hexk[:80] + "..."
+	}
+	return fmt.Sprintf("question %q %s %s, %d-octet name, flags %#x (key %s)", k[6:], dns.Class(uint16(k[3])<<8|uint16(k[4])).String(), dns.Type(uint16(k[1])<<8|uint16(k[2])).String(), len(k)-6, k[0], hexk)
+}
+
+// unusualOf19 counts the keys with octets >= 0x80 and names up to three of them.
+func unusualOf19(keys []string) (int, []string) {
+	n := 0
+	var ex []string
+	for _, k := range keys {
+		if unusual19(k) {
+			n++
+			if len(ex) < 3 {
+				ex = append(ex, kd19(k))
+			}
+		}
+	}
+	return n, ex
+}
+
+func (r *Run) entry19(i int, now time.Time, big bool) ent19 {
+	q := r.question19(i)
+	name := q.Question[0].Name
+	m := new(dns.Msg)
+	m.SetQuestion(name, q.Question[0].Qtype)
+	m.Question[0].Qclass = q.Question[0].Qclass
 	m.Response = true
 	m.Rcode = []int{0, 0, 0, 3, 2}[r.Rng.Intn(5)]
 	nrr := r.Rng.Intn(4)
@@ -48,7 +136,7 @@ func (r *Run) entry19(i int, now time.Time, big bool) ent19 {
 		m.Ns = append(m.Ns, &dns.SOA{Hdr: dns.RR_Header{Name: "example.", Rrtype: dns.TypeSOA, Class: dns.ClassINET, Ttl: uint32(r.Rng.Intn(900))}, Ns: "ns.example.", Mbox: "m.example.", Serial: 1})
 	}
 	age := time.Duration(r.Rng.Intn(4000))*time.Second + time.Duration(r.Rng.Intn(1000))*time.Millisecond
-	e := ent19{key: fmt.Sprintf("\x00\x00\x01\x00\x01\x05key%d", i), msg: m, stored: now.Add(-age)}
+	e := ent19{key: cache.VerifGetMsgKey(q), msg: m, stored: now.Add(-age)}
 	switch r.Rng.Intn(6) {
 	case 0: // message expired, still in the store (lazy entry)
 		e.mexp = now.Add(-time.Duration(1+r.Rng.Intn(100)) * time.Second)
@@ -323,7 +411,8 @@ func (r *Run) overlap19(round int) {
 	nextKey := nEnt
 	cw := &countW19{}
 	if n, err := src.VerifWriteDump(cw); err != nil || n != nEnt {
-		r.Fail("writeDump failed or did not write exactly the live entries", map[string]any{"entries": nEnt, "written": n, "err": fmt.Sprint(err)})
+		nu, exu := unusualOf19(keys)
+		r.Fail("writeDump failed or did not write exactly the live entries", map[string]any{"entries": nEnt, "written": n, "err": fmt.Sprint(err), "entries_with_key_octets_above_0x7f": nu, "such_as": exu})
 		return
 	}
 	singleBlock := nEnt <= 120 && !big // stays one block with the few names the updates add
@@ -595,7 +684,7 @@ func (r *Run) overlap19(round int) {
 			if !ok {
 				if definite != nil && bad < 3 {
 					bad++
-					desc["key"] = k
+					desc["key"] = kd19(k)
 					r.Fail("an entry that was live and untouched for the whole time of the dump is missing after reload", desc)
 				}
 				continue
@@ -611,7 +700,7 @@ func (r *Run) overlap19(round int) {
 			}
 			if !match && bad < 3 {
 				bad++
-				desc["key"] = k
+				desc["key"] = kd19(k)
 				r.Fail("a reloaded entry (answer, stored / message-expiry / cache-expiry time) is not an entry the cache held under that key at any moment while the dump ran", desc)
 			}
 		}
@@ -638,9 +727,117 @@ func (r *Run) overlap19(round int) {
 	}
 }
 
+// restart19: what clients are served across a restart, through the plugin's
+// own paths: questions -> getMsgKey -> saveRespToCache into a cache, GET /dump,
+// POST /load_dump into an empty cache (both on the plugin API), and then every
+// question is looked up in both caches with getRespFromCache.
+func (r *Run) restart19(round int) {
+	began := time.Now()
+	lazy := []int{0, 86400}[r.Rng.Intn(2)]
+	a := cache.NewCache(&cache.Args{Size: 1 << 16, LazyCacheTTL: lazy}, cache.Opts{})
+	defer a.Close()
+	b := cache.NewCache(&cache.Args{Size: 1 << 16, LazyCacheTTL: lazy}, cache.Opts{})
+	defer b.Close()
+	n := []int{1, 3, 20, 127, 129, 260}[r.Rng.Intn(6)]
+	var keys []string
+	for i := 0; i < n; i++ {
+		q := r.question19(i)
+		if round%2 == 0 && i == n/2 { // at least one of the unusual questions every other round
+			q.Question[0].Qtype = []uint16{dns.TypeANY, dns.TypeAXFR, uint16(128 + r.Rng.Intn(128))}[r.Rng.Intn(3)]
+		}
+		k := cache.VerifGetMsgKey(q)
+		resp := new(dns.Msg)
+		resp.SetReply(q)
+		name := q.Question[0].Name
+		switch r.Rng.Intn(5) {
+		case 0:
+			resp.Rcode = dns.RcodeNameError // kept 30 s
+		case 1: // empty answer, SOA minimum decides (kept up to 300 s)
+			resp.Ns = append(resp.Ns, &dns.SOA{Hdr: dns.RR_Header{Name: "example.", Rrtype: dns.TypeSOA, Class: dns.ClassINET, Ttl: uint32(60 + r.Rng.Intn(900))}, Ns: "ns.example.", Mbox: "m.example.", Serial: 1, Minttl: uint32(60 + r.Rng.Intn(900))})
+		default:
+			for j := 0; j <= r.Rng.Intn(3); j++ {
+				resp.Answer = append(resp.Answer, &dns.A{Hdr: dns.RR_Header{Name: name, Rrtype: dns.TypeA, Class: dns.ClassINET, Ttl: uint32(60 + r.Rng.Intn(5000))}, A: net.IPv4(10, byte(i>>8), byte(i), byte(j))})
+			}
+		}
+		if a.VerifSave(k, resp) {
+			keys = append(keys, k)
+		}
+	}
+	nu, exu := unusualOf19(keys)
+	desc := map[string]any{"questions": n, "stored": len(keys), "lazy_cache_ttl": lazy, "entries_with_key_octets_above_0x7f": nu, "such_as": exu}
+	r.Eval(fmt.Sprintf("restart:%d:%d:%d:%d", round, n, len(keys), nu), len(keys) > 0)
+	r.Count("restart-scenario")
+	if nu > 0 {
+		r.Count("restart-scenario-with-unusual-questions")
+	}
+	if len(keys) > 0 && len(keys) <= 20 { // one block: the same keys on the model's writer (key field kind = regenerated fact)
+		var hk []string
+		for _, k := range keys {
+			hk = append(hk, hx([]byte(k)))
+		}
+		wn, werr := a.VerifWriteDump(io.Discard)
+		r.Line("wr "+strings.Join(hk, ","), fmt.Sprintf("%d %s", wn, b01(werr != nil)))
+		r.Count("restart-keys-replayed-on-model")
+	}
+	rec := httptest.NewRecorder()
+	a.Api().ServeHTTP(rec, httptest.NewRequest(http.MethodGet, "/dump", nil))
+	if rec.Code != http.StatusOK {
+		desc["status"], desc["body"] = rec.Code, strings.TrimSpace(rec.Body.String())
+		r.Fail("GET /dump of a cache filled through saveRespToCache failed", desc)
+		return
+	}
+	rec2 := httptest.NewRecorder()
+	b.Api().ServeHTTP(rec2, httptest.NewRequest(http.MethodPost, "/load_dump", bytes.NewReader(rec.Body.Bytes())))
+	if rec2.Code != http.StatusOK {
+		desc["status"], desc["body"] = rec2.Code, strings.TrimSpace(rec2.Body.String())
+		r.Fail("POST /load_dump of the dump just taken failed", desc)
+		return
+	}
+	if time.Since(began) > 15*time.Second {
+		r.Count("restart-stalled-skipped")
+		return
+	}
+	if a.VerifLen() != len(keys) || b.VerifLen() != len(keys) { // every lifetime is >= 30 s: nothing leaves the store during the scenario
+		desc["before"], desc["after"] = a.VerifLen(), b.VerifLen()
+		r.Fail("the cache after GET /dump -> POST /load_dump does not hold the same number of entries", desc)
+	}
+	bad := 0
+	for _, k := range keys {
+		if time.Since(began) > 15*time.Second { // the shortest lifetime is 30 s; on a stalled machine entries may expire under us
+			r.Count("restart-stalled-skipped")
+			return
+		}
+		m1, l1 := a.VerifGet(k)
+		m2, l2 := b.VerifGet(k)
+		if m1 == nil || m2 == nil || l1 != l2 {
+			if bad++; bad <= 3 {
+				r.Fail("a question answered from the cache before the restart is served differently after GET /dump -> POST /load_dump", map[string]any{"key": kd19(k), "before_hit": m1 != nil, "after_hit": m2 != nil, "before_lazy": l1, "after_lazy": l2, "scenario": desc})
+			}
+			continue
+		}
+		same := m1.Rcode == m2.Rcode && len(m1.Answer) == len(m2.Answer) && len(m1.Ns) == len(m2.Ns) && len(m1.Question) == len(m2.Question) && m1.Question[0] == m2.Question[0]
+		for _, sec := range [][2][]dns.RR{{m1.Answer, m2.Answer}, {m1.Ns, m2.Ns}} {
+			for i := 0; same && i < len(sec[0]); i++ {
+				x, y := dns.Copy(sec[0][i]), dns.Copy(sec[1][i])
+				d := int64(x.Header().Ttl) - int64(y.Header().Ttl)
+				x.Header().Ttl, y.Header().Ttl = 0, 0
+				same = d >= -1 && d <= 1 && x.String() == y.String()
+			}
+		}
+		if !same {
+			if bad++; bad <= 3 {
+				r.Fail("an answer served from the cache differs (records, or TTLs by more than a second) after GET /dump -> POST /load_dump", map[string]any{"key": kd19(k), "before": m1.String(), "after": m2.String()})
+			}
+		}
+	}
+}
+
 func runC19(r *Run) {
 	for round := 0; round < r.N(16, 200); round++ {
 		r.overlap19(round)
+	}
+	for round := 0; round < r.N(6, 80); round++ {
+		r.restart19(round)
 	}
 	rounds := r.N(4, 40)
 	for round := 0; round < rounds; round++ {
@@ -659,6 +856,11 @@ func runC19(r *Run) {
 			src.VerifInject(e.key, e.msg, e.stored, e.mexp, e.cexp)
 			if e.cexp.After(now.Add(time.Second)) {
 				live[e.key] = e
+				if unusual19(e.key) {
+					r.Count("live-entry-with-key-octets-above-0x7f")
+				} else {
+					r.Count("live-entry-with-ascii-key")
+				}
 			}
 		}
 		var dump bytes.Buffer
@@ -666,7 +868,13 @@ func runC19(r *Run) {
 		comp := dump.Bytes()
 		desc := map[string]any{"entries": nEnt, "live": len(live), "big_answers": big, "dump_bytes": len(comp)}
 		if err != nil || nd != len(live) {
-			r.Fail("writeDump failed or did not write exactly the live entries", map[string]any{"entries": nEnt, "live": len(live), "written": nd, "err": fmt.Sprint(err)})
+			var lk []string
+			for k := range live {
+				lk = append(lk, k)
+			}
+			sort.Strings(lk)
+			nu, exu := unusualOf19(lk)
+			r.Fail("writeDump failed or did not write exactly the live entries", map[string]any{"entries": nEnt, "live": len(live), "written": nd, "err": fmt.Sprint(err), "entries_with_key_octets_above_0x7f": nu, "such_as": exu})
 			continue
 		}
 		plain, clean, _ := gunzipAvail(comp)
@@ -704,17 +912,17 @@ func runC19(r *Run) {
 			for k, e := range live {
 				m2, st2, me2, ce2, ok := full.c.VerifPeek(k)
 				if !ok {
-					r.Fail("a live entry is missing after dump + load", map[string]any{"key": k})
+					r.Fail("a live entry is missing after dump + load", map[string]any{"key": kd19(k)})
 					break
 				}
 				w1, _ := e.msg.Pack()
 				w2, _ := m2.Pack()
 				if !bytes.Equal(w1, w2) {
-					r.Fail("a reloaded entry holds a different answer", map[string]any{"key": k})
+					r.Fail("a reloaded entry holds a different answer", map[string]any{"key": kd19(k)})
 					break
 				}
 				if st2.Unix() != e.stored.Unix() || me2.Unix() != e.mexp.Unix() || ce2.Unix() != e.cexp.Unix() {
-					r.Fail("a reloaded entry does not keep its stored / message-expiry / cache-expiry time (to the second)", map[string]any{"key": k,
+					r.Fail("a reloaded entry does not keep its stored / message-expiry / cache-expiry time (to the second)", map[string]any{"key": kd19(k),
 						"stored": []int64{e.stored.Unix(), st2.Unix()}, "msg_expiry": []int64{e.mexp.Unix(), me2.Unix()}, "cache_expiry": []int64{e.cexp.Unix(), ce2.Unix()}})
 					break
 				}
@@ -726,14 +934,14 @@ func runC19(r *Run) {
 					if (a1 == nil) != (a2 == nil) || l1 != l2 {
 						// an entry within one second of its expiry may legitimately flip; skip those
 						if d := e.mexp.Sub(time.Now()); d > 2*time.Second || d < -2*time.Second {
-							r.Fail("an entry is served differently after dump + load (hit/miss/lazy)", map[string]any{"key": k, "before_hit": a1 != nil, "after_hit": a2 != nil, "before_lazy": l1, "after_lazy": l2})
+							r.Fail("an entry is served differently after dump + load (hit/miss/lazy)", map[string]any{"key": kd19(k), "before_hit": a1 != nil, "after_hit": a2 != nil, "before_lazy": l1, "after_lazy": l2})
 						}
 					} else if a1 != nil {
 						s1, s2 := a1.Answer, a2.Answer
 						for i := range s1 {
 							d := int64(s1[i].Header().Ttl) - int64(s2[i].Header().Ttl)
 							if d < -1 || d > 1 {
-								r.Fail("remaining TTLs differ by more than a second after dump + load", map[string]any{"key": k, "before": s1[i].Header().Ttl, "after": s2[i].Header().Ttl})
+								r.Fail("remaining TTLs differ by more than a second after dump + load", map[string]any{"key": kd19(k), "before": s1[i].Header().Ttl, "after": s2[i].Header().Ttl})
 								break
 							}
 						}
@@ -743,7 +951,7 @@ func runC19(r *Run) {
 			for _, e := range ents {
 				if _, isLive := live[e.key]; !isLive && !e.cexp.After(now.Add(-time.Second)) {
 					if _, _, _, _, ok := full.c.VerifPeek(e.key); ok {
-						r.Fail("an entry that had left the store came back after dump + load", map[string]any{"key": e.key})
+						r.Fail("an entry that had left the store came back after dump + load", map[string]any{"key": kd19(e.key)})
 					}
 				}
 			}
@@ -876,5 +1084,5 @@ func runC19(r *Run) {
 			res.c.Close()
 		}
 	}
-	r.Finish("overlapping dumps of one cache: a first dump (1..300 entries, a sixth with ~10 KB answers) is held up inside a seeded write to its consumer (the gzip header or a later one) while 1-2 further dumps (writeDump or GET /dump, a quarter held up too) run and the cache is updated between them (nothing / same-size / smaller / unrelated answers, new names, GET /flush + partial refill), consumers released in seeded order, one final undisturbed dump; every dump is reloaded: it loads without error, every reloaded entry equals (answer and times to the second) a version the cache held under that key at some moment while that dump ran, entries live and untouched for the whole dump are present, no foreign keys; when the first dump was parked in the first write of a one-block dump and the next ran start to end, the same interleaving is run on the model (ovl); then caches of {0,1,5,127,128,129,256,300} entries (a quarter with ~10 KB answers, 130..190 entries) with random ages, a sixth message-expired but still stored, a sixth already out of the store; dump -> load into an empty cache -> compare keys, answers, times and served TTLs; truncation of the compressed dump at seeded points + the whole gzip header and trailer (thorough: every byte of small dumps); crafted gzip streams with block lengths {0,1,7,2^20,2^20+1,2^31,...,2^64-1}; random bytes, wrong header names, bit flips; non-trivial = dump with live entries / cut that leaves more than a header / every hostile file")
+	r.Finish("overlapping dumps of one cache: a first dump (1..300 entries, a sixth with ~10 KB answers) is held up inside a seeded write to its consumer (the gzip header or a later one) while 1-2 further dumps (writeDump or GET /dump, a quarter held up too) run and the cache is updated between them (nothing / same-size / smaller / unrelated answers, new names, GET /flush + partial refill), consumers released in seeded order, one final undisturbed dump; every dump is reloaded: it loads without error, every reloaded entry equals (answer and times to the second) a version the cache held under that key at some moment while that dump ran, entries live and untouched for the whole dump are present, no foreign keys; when the first dump was parked in the first write of a one-block dump and the next ran start to end, the same interleaving is run on the model (ovl); entries are keyed by getMsgKey of seeded client questions: mostly ordinary (A/AAAA/HTTPS/MX/TXT/PTR IN, short names), about four in ten unusual but legal (ANY / AXFR / IXFR / TSIG / TA / DLV / TYPE128..255 / any 16-bit type, class CH / HS / NONE / ANY, names of 128..247 octets, AD / CD / DO), so dumped keys hold octets >= 0x80 next to plain ASCII ones; restart scenarios on the plugin paths: 1..260 questions -> getMsgKey -> saveRespToCache (answers, NXDOMAIN, empty + SOA; lazy cache on / off), GET /dump, POST /load_dump into an empty cache, both 200, same number of entries, every question looked up in both caches with getRespFromCache: same hit / lazy flag, same records, TTLs within a second (one-block caches: the keys are also run through the model writer, wr); then caches of {0,1,5,127,128,129,256,300} entries (a quarter with ~10 KB answers, 130..190 entries) with random ages, a sixth message-expired but still stored, a sixth already out of the store; dump -> load into an empty cache -> compare keys, answers, times and served TTLs; truncation of the compressed dump at seeded points + the whole gzip header and trailer (thorough: every byte of small dumps); crafted gzip streams with block lengths {0,1,7,2^20,2^20+1,2^31,...,2^64-1}; random bytes, wrong header names, bit flips; non-trivial = dump with live entries / cut that leaves more than a header / every hostile file")
 }
